@@ -366,10 +366,14 @@ class APIClient:
 
     async def _execute_connection_coro(self, coro: Awaitable[None]) -> None:
         """Execute a coroutine and reset the _connection if it fails."""
+        connection = self._connection
         try:
             await coro
         except (Exception, asyncio.CancelledError):  # pylint: disable=broad-except
-            self._connection = None
+            if self._connection is connection:
+                # Only forget the connection this phase belongs to, a newer
+                # one may have been installed after a disconnect()
+                self._connection = None
             raise
 
     async def disconnect(self, force: bool = False) -> None:
